@@ -46,7 +46,7 @@ RULE = ("E-states: a state is a sequence of line tokens (the file prefix); every
 BOUNDS = {
   "quick": "E-states: all sequences of <= 7 tokens over 6 line tokens x 3 renderings; E-inputs: hours "
            "{00,01,99,100,999} x min/sec {00,59} x all 1000 ms as begin and as end, fps {24,25,30} direct and through "
-           "the IMSC writer in frames mode; 10 tag-tree shapes (depth <= 3) x 17 tag spellings per slot; lay-out "
+           "the IMSC writer in frames mode; 10 tag-tree shapes (depth <= 3) x 19 tag spellings per slot; lay-out "
            "product (1-3 cues x 1-5 lines x LF/CRLF x leading/separating/trailing blank runs x 2/3 hour digits x 4 "
            "payload styles); all tag-token sequences <= 4; SRT writer round trip over 1296 documents x 2 configurations",
   "thorough": "as quick with E-states depth 8 and tag-token sequences <= 5",
@@ -168,7 +168,7 @@ def _walk_exp(tree, flags, syn, chars):
         i = True
       elif n[1] == "u":
         u = True
-      elif n[1] == "font":
+      elif n[1] == "font" and n[3] is not None:          # a font tag without colour leaves the colour as it is
         c = sp.norm_color(n[3])
       _walk_exp(n[5], (b, i, u, c), syn | {syntax_class(n[4])}, chars)
 
@@ -329,6 +329,20 @@ def check_text(text, acc, case, ws_clause=False, frames=True):
   if cues is None:
     return "ungrammatical-read", False
   out = compare(prefix, cues, res, acc, case, frames=frames)
+  if "\r" in text:
+    # the same characters handed over as a text stream that does not translate line ends (io.StringIO keeps CR LF): the
+    # reader has to cope with CR LF itself and must build the same document
+    import io
+    from mc.spec import fp_doc
+    try:
+      with LogTap():
+        doc2 = srt_reader.to_model(io.StringIO(text), None, lambda _: None)
+      same = doc2 is not None and fp_doc(doc2) == fp_doc(res)
+    except Exception as e:  # pylint: disable=broad-except
+      same, doc2 = False, repr(e)[:200]
+    if not same:
+      acc.violation(f"{ID}.eol", "in-memory-stream-keeps-CR", case, observed=str(doc2)[:200] if not hasattr(doc2, "get_body") else "document differs",
+                    expected="the document read from the same file opened in text mode", note="CR LF line ends in a stream without newline translation")
   return (f"{len(cues)}cue:" if len(cues) < 3 else "3+cue:") + out + (":ws" if prefix != ID else ""), True
 
 
@@ -469,7 +483,8 @@ TAGS = (
   + [("{%s}" % t, "{/%s}" % t) for t in ("bold", "italic", "underline")]
   + [('<font color="red">', "</font>"), ('<font color="#00ff00">', "</font>"), ("<font color='#0000ffcc'>", "</font>"),
      ('<font color="#ff000000">', "</font>"),        # alpha 00 is a value, not an absent component
-     ('<font color="rgb(255, 128, 0)">', "</font>")]  # functional notation, three different components
+     ('<font color="rgb(255, 128, 0)">', "</font>"),  # functional notation, three different components
+     ('<font face="Arial">', "</font>"), ("<s>", "</s>")]   # tags without effect on the styles of the statement: they must nest all the same
 )
 
 # shapes: A B C are tag slots, words are text, "|" is a line break
